@@ -118,7 +118,7 @@ def gen_spec(rng, n=None):
 # ---------------------------------------------------------------------------
 def sky_sep_px(a, b):
     """separation of two sky positions (deg) in units of the 1e-5 deg pixel"""
-    dra = (a[..., 0] - b[..., 0]) * np.cos(np.deg2rad(0.5 * (a[..., 1] + b[..., 1])))
+    dra = ((a[..., 0] - b[..., 0] + 180.0) % 360.0 - 180.0) * np.cos(np.deg2rad(0.5 * (a[..., 1] + b[..., 1])))
     ddec = a[..., 1] - b[..., 1]
     return np.hypot(dra, ddec) / alignsim.SCALE
 
@@ -169,6 +169,10 @@ def oracle(ctx, case, rec, scene):
     # (a') the footprint of the growing reference catalog follows its rows (it decides every later overlap)
     for b in alignsim.stale_footprints(rec['obs']):
         fail('after expand_catalog the footprint of the reference catalog is not the footprint of its rows', **b)
+        break
+    for b in alignsim.misplaced_footprints(rec['obs']):
+        fail('the footprint of the reference catalog (it decides overlap and expansion) does not contain the '
+             'centroid of its own sources', **b)
         break
     # (b) growth only with expand_refcat
     if not spec['expand']:
@@ -373,12 +377,20 @@ def run(ctx):
                 'errs': [(0.6, -0.4), (-0.9, 0.7), (0.3, 1.1), (-0.5, -0.8)][:len(origins)], 'ref': None,
                 'expand': True, 'enforce': False, 'minobj': None, 'fitgeom': 'rscale', 'match': True}
         do_scenario(ctx, scene, scene_seed, spec, lines, pending, 'corpus:pair-area')
-    for _ in range(ctx.n(70, 350)):
+    # a mosaic that straddles RA = 0 / 360 in every run (a third of the random scenarios, and a fixed one
+    # with a failing image that overlaps the reference)
+    wrap_seed, wrap_scene = alignsim.scene_with(rng, alignsim.WRAP_POINTS)
+    spec = {'images': [((0, 0), 'good', None), ((300, 100), 'junk', None), ((600, 0), 'good', None)],
+            'errs': [(0.6, -0.4), (-0.9, 0.7), (0.3, 1.1)], 'ref': {'kind': 'table', 'region': 'centre', 'ids': None},
+            'expand': True, 'enforce': True, 'minobj': None, 'fitgeom': 'rscale', 'match': True}
+    do_scenario(ctx, wrap_scene, wrap_seed, spec, lines, pending, 'corpus:ra-wrap')
+    for k in range(ctx.n(70, 350)):
         spec = gen_spec(rng)
         if spec is None:
             continue
-        c13.add_ref_ids(rng, scene, spec)
-        do_scenario(ctx, scene, scene_seed, spec, lines, pending, 'random')
+        sc, sd = (wrap_scene, wrap_seed) if k % 3 == 2 else (scene, scene_seed)
+        c13.add_ref_ids(rng, sc, spec)
+        do_scenario(ctx, sc, sd, spec, lines, pending, 'random' if sc is scene else 'random:ra-wrap')
     if ctx.tier == 'thorough' and not ctx.search_only:
         # all input orders of mosaics of up to 4 images, a failing image at every position
         for n in (2, 3, 4):
